@@ -21,7 +21,7 @@ import (
 
 func TestMain(m *testing.M) {
 	document.SetGlobalLevel(document.LogLevelSilent)
-	kit.TestMain(m, 2000, 30000)
+	kit.TestMain(m, 1750, 30000)
 }
 
 func run(c Case) *kit.Result {
@@ -56,6 +56,8 @@ func run(c Case) *kit.Result {
 				// the template file as another producer (Word) writes it: document properties are reachable from the package relationships
 				b0 = withPackageRels(b0)
 			}
+			// ... and in other legal spellings of the same package (absolute relationship targets, media numbered from 1)
+			b0 = foreignize(b0, c.Foreign)
 			path := filepath.Join(kit.Scratch, fmt.Sprintf("c18-%d.docx", os.Getpid()))
 			if werr := os.WriteFile(path, b0, 0o644); werr != nil {
 				err = nil
@@ -75,6 +77,36 @@ func run(c Case) *kit.Result {
 			if b1, err = base.ToBytes(); err != nil {
 				return
 			}
+			if c.Prior == 2 {
+				where = "second template"
+				path2 := filepath.Join(kit.Scratch, fmt.Sprintf("c18-%d-u.docx", os.Getpid()))
+				var ub []byte
+				if ub, err = otherTemplate().ToBytes(); err != nil {
+					return
+				}
+				if werr := os.WriteFile(path2, ub, 0o644); werr != nil {
+					err = nil
+					where = "scratch"
+					return
+				}
+				defer os.Remove(path2)
+				if _, err = tr.LoadTemplateFromFile("u", path2); err != nil {
+					return
+				}
+			}
+			if c.Prior >= 1 {
+				where = "RenderTemplate (earlier rendering, other data)"
+				if _, err = tr.RenderTemplate("t", c.priorData()); err != nil && c.Prior != 3 {
+					return
+				}
+				err = nil
+			}
+			if c.Prior == 2 {
+				where = "RenderTemplate (second template)"
+				if _, err = tr.RenderTemplate("u", td); err != nil {
+					return
+				}
+			}
 			where = "RenderTemplate"
 			if out, err = tr.RenderTemplate("t", td); err != nil {
 				return
@@ -88,6 +120,25 @@ func run(c Case) *kit.Result {
 			where = "LoadTemplateFromDocument"
 			if _, err = eng.LoadTemplateFromDocument("t", base); err != nil {
 				return
+			}
+			if c.Prior == 2 {
+				where = "second template"
+				if _, err = eng.LoadTemplateFromDocument("u", otherTemplate()); err != nil {
+					return
+				}
+			}
+			if c.Prior >= 1 {
+				where = "RenderTemplateToDocument (earlier rendering, other data)"
+				if _, err = eng.RenderTemplateToDocument("t", c.priorData()); err != nil && c.Prior != 3 {
+					return
+				}
+				err = nil
+			}
+			if c.Prior == 2 {
+				where = "RenderTemplateToDocument (second template)"
+				if _, err = eng.RenderTemplateToDocument("u", td); err != nil {
+					return
+				}
 			}
 			where = "RenderTemplateToDocument"
 			if out, err = eng.RenderTemplateToDocument("t", td); err != nil {
@@ -136,7 +187,9 @@ func run(c Case) *kit.Result {
 
 	// W7 the base document is untouched
 	res.Eval("C18.W7")
-	if pk2, err := opc.Read(b2); err != nil {
+	if bytes.Equal(b1, b2) {
+		// the very same bytes: nothing to compare part by part
+	} else if pk2, err := opc.Read(b2); err != nil {
 		res.Fail("C18.W7", "base document no longer saves to a readable package after rendering: %v", err)
 	} else if d := samePackage(bv.pkg, pk2); d != "" {
 		res.Fail("C18.W7", "the base document changed by rendering: %s", d)
@@ -144,6 +197,52 @@ func run(c Case) *kit.Result {
 	describe(res, &c, j)
 	res.Count("hf_placeholders", hs+hu)
 	return res
+}
+
+// priorData: the data of an earlier rendering of the same template - every name of every pool supplied with a value of
+// its own, every list with two complete items, every condition true, every image with another picture.
+func (c *Case) priorData() *document.TemplateData {
+	td := document.NewTemplateData()
+	for _, n := range append(append([]string{}, varNames...), hfNames...) {
+		td.SetVariable(n, "earlier-"+n)
+	}
+	for _, l := range listNames {
+		var items []interface{}
+		for i := 0; i < 2; i++ {
+			it := map[string]interface{}{}
+			for _, f := range fieldNames {
+				it[f] = fmt.Sprintf("earlier-%s%d", f, i)
+			}
+			items = append(items, it)
+		}
+		td.SetList(l, items)
+	}
+	for i, n := range imgNames {
+		if c.Prior == 3 {
+			td.SetImageFromData(n, []byte("this is no picture"), nil)
+			continue
+		}
+		td.SetImageFromData(n, imgBytes(gen.Img{Fmt: "png", W: 2 + i, H: 2, Pat: 4242 + i}), nil)
+	}
+	for _, n := range condNames {
+		td.SetCondition(n, true)
+	}
+	return td
+}
+
+// otherTemplate: a second, unrelated template document for the same engine (same names, other content).
+func otherTemplate() *document.Document {
+	d := document.New()
+	d.AddParagraph("Other template: {{name}} / {{city}} / {{qty}}")
+	d.AddParagraph("{{#image logo}}")
+	if t, err := d.AddTable(&document.TableConfig{Rows: 2, Cols: 2, Width: 2400}); err == nil {
+		t.SetCellText(0, 0, "{{code}}")
+		t.SetCellText(1, 0, "{{#each rows}}{{item}}")
+		t.SetCellText(1, 1, "{{price}}{{/each}}")
+	}
+	d.AddHeader(document.HeaderFooterTypeDefault, "other {{doc_no}} {{name}}")
+	d.AddFooter(document.HeaderFooterTypeDefault, "other {{rev}}")
+	return d
 }
 
 // withPackageRels rewrites _rels/.rels of a saved package so that docProps/core.xml and docProps/app.xml (when present)
@@ -209,6 +308,8 @@ type caseStats struct {
 	loopNontext                                                                  map[string]bool // non-text run kinds standing in loop-row paragraphs
 	loopMarkerSplit                                                              bool            // a loop marker ({{#each x}} / {{/each}}) cut across runs
 	valueClasses                                                                 map[string]bool
+	maxPlaceholders                                                              int  // max over paragraphs: placeholders in one paragraph
+	bigTable                                                                     bool // a table with >= 10 rows or columns
 }
 
 // paraSplit counts, in the concatenated text of the runs, placeholders whose characters sit in >= 2 runs / formats.
@@ -238,6 +339,9 @@ func paraSplit(p *Para, cs *caseStats) {
 		if (sp.s > 0 && text[sp.s-1] == '{') || (sp.e < len(text) && text[sp.e] == '}') {
 			cs.braceAdjacent++
 		}
+	}
+	if len(spans) > cs.maxPlaceholders {
+		cs.maxPlaceholders = len(spans)
 	}
 	for _, sp := range spans {
 		runs := map[int]bool{}
@@ -344,6 +448,9 @@ func tableStats(t *Table, cs *caseStats, depth int) {
 	if t.LoopRow >= 0 {
 		cs.loopTables++
 	}
+	if t.Rows >= 10 || t.Cols >= 10 {
+		cs.bigTable = true
+	}
 	if len(t.MergeH)+len(t.MergeV) > 0 {
 		cs.mergedTables++
 	}
@@ -447,6 +554,24 @@ func describe(res *kit.Result, c *Case, j *judge) {
 		res.Label("pset:" + k)
 	}
 	lab(cs.maxRuns >= 4, "para:4+runs")
+	lab(cs.maxRuns > 10, "para:11+runs")
+	lab(cs.maxPlaceholders > 10, "para:11+placeholders")
+	lab(cs.nontext["pic"] >= 11, "doc:11+pictures")
+	lab(cs.nontext["pic"] >= 11 && c.Entry >= 1 && cs.imgParas+cs.cellImgParas > 0, "doc:11+pictures+image-placeholder+file")
+	lab(len(c.Blocks) >= 10, "doc:10+blocks")
+	lab(cs.hfs >= 4, "doc:4+headers-footers")
+	lab(cs.bigTable, "doc:table-10+rows-or-cols")
+	lab(c.Data.TypedItems, "list:typed-item-fields")
+	if c.Foreign.any() {
+		res.Label("file:foreign-spelling")
+		lab(c.Foreign.AbsHF || c.Foreign.AbsAll, "file:absolute-header-footer-targets")
+		lab((c.Foreign.AbsHF || c.Foreign.AbsAll) && cs.hfs > 0, "file:absolute-header-footer-targets+hf")
+		lab(c.Foreign.AbsAll, "file:absolute-main-part-targets")
+		lab(c.Foreign.AbsPkg, "file:absolute-package-targets")
+		lab(c.Foreign.Media1, "file:media-numbered-from-1")
+		lab(c.Foreign.RelIDs != 0, "file:other-relationship-ids")
+	}
+	res.Label(fmt.Sprintf("prior:%d", c.Prior))
 	lab(cs.splitAcrossRuns > 0, "ph:split-across-runs")
 	lab(cs.splitAcrossFormats > 0, "ph:split-across-formats")
 	lab(cs.loopSplit, "ph:split-in-loop-row")
@@ -466,6 +591,13 @@ func describe(res *kit.Result, c *Case, j *judge) {
 	}
 	lab(hasList, "doc:list-item")
 	for _, l := range c.Data.Lists {
+		if len(l) >= 9 {
+			res.Label("list:9+items")
+			if len(l) > 64 {
+				res.Label("list:65+items")
+			}
+			continue
+		}
 		res.Label(fmt.Sprintf("list:%d-items", len(l)))
 	}
 	var dv []string
@@ -477,6 +609,20 @@ func describe(res *kit.Result, c *Case, j *judge) {
 		case v.I:
 			dv = append(dv, "i")
 			res.Label("value:int")
+		case v.K != "":
+			dv = append(dv, "t")
+			res.Label("value:typed-" + v.K)
+		case strings.ContainsAny(v.S, "$\\%"):
+			dv = append(dv, "d")
+			res.Label("value:subst-meta")
+			if strings.Contains(v.S, "$") {
+				res.Label("value:dollar")
+				for _, h := range c.HFs {
+					if strings.Contains(h.Text, "{{"+n+"}}") {
+						res.Label("value:dollar-in-header-footer")
+					}
+				}
+			}
 		case v.S == "":
 			dv = append(dv, "e")
 			res.Label("value:empty")
@@ -523,12 +669,18 @@ func describe(res *kit.Result, c *Case, j *judge) {
 	}
 	sort.Strings(keys)
 	res.Shape = sk.String() + "#" + strings.Join(dv, "") + "#" + strings.Join(keys, "") + fmt.Sprintf("#e%d", c.Entry)
+	if c.Foreign.any() {
+		res.Shape += fmt.Sprintf("f%s%s%s%s", b01(c.Foreign.AbsHF), b01(c.Foreign.AbsAll), b01(c.Foreign.AbsPkg), b01(c.Foreign.Media1)) + itoa(c.Foreign.RelIDs)
+	}
+	if c.Prior > 0 {
+		res.Shape += fmt.Sprintf("#p%d", c.Prior)
+	}
 }
 
 func TestC18(t *testing.T) {
 	kit.Main(t, kit.Spec[Case]{
 		ID: "C18", Level: "exploration",
-		Rule: "base document built through the API: 1-6 (thorough 1-9) body blocks = paragraphs whose text is drawn as tokens (literals incl. XML metacharacters/Unicode, lone and double braces, variable names as literal text, {{name}} placeholders) and then cut into up to 6 runs at drawn rune positions (half of the cuts inside a placeholder) with formats from a palette, plus page-break / inline-picture / PAGE-field runs at run boundaries and paragraph-property setter calls; tables (1-4 x 1-3, one horizontal or vertical merge, header row, row height, shaded cells, nested tables) with cell paragraphs of the same kind, in half of the tables one row in the documented row-loop shape ({{#each list}} in its first cell, {{/each}} in its last, sometimes a word before/after the marker; cells of 1-2 paragraphs holding item fields, each cut into up to 5 runs of different formats - cuts inside the markers and the fields - with page-break, picture and field runs and paragraph-property setters); paragraphs and cell paragraphs holding {{#image x}} (alone, or with non-blank text around / two placeholders); the white space between '#each' / '#image' / '#if' and the name is the one documented blank in about half of the draws, otherwise 1-3 blanks/tabs; literal tokens and whole table rows that only look like placeholders/markers ('{{ name }}', '{{#each rows }}', '{{ /each}}', '{{#Each rows}}', '{{#Image logo}}' ...); one-format paragraphs holding one conditional block {{#if c}}words[{{else}}words]{{/if}} with conditions set true/false/unset; 0-3 headers/footers of distinct kinds with placeholders; section settings, document properties, a custom style, list items. Data: a drawn subset of the variable names (strings incl. XML metacharacters, braces, blanks, empty; ints; control characters only for names used in headers/footers), lists of 0-3 maps with a drawn subset of the fields, image data for a drawn subset of the image names. Rendered through LoadTemplateFromDocument+RenderTemplateToDocument, or saved and rendered through TemplateRenderer.LoadTemplateFromFile+RenderTemplate (optionally after adding Word-style package relationships to the file). non-trivial = some placeholder is cut across runs of different formats (in the case and as seen in the saved base) and the document has both a supplied and an unsupplied placeholder and a table or a header/footer; distinct = distinct (block skeleton: run counts, non-text run kinds, setter kinds, table shapes/loop row/merges; header/footer kinds; per-name value class vector; list lengths; entry point)",
+		Rule: "base document built through the API: 1-6 (thorough 1-9) body blocks = paragraphs whose text is drawn as tokens (literals incl. XML metacharacters/Unicode, lone and double braces, variable names as literal text, {{name}} placeholders; nine names, among them v1/v10 and name/Name) and then cut into up to 6 runs at drawn rune positions (half of the cuts inside a placeholder) with formats from a palette, plus page-break / inline-picture / PAGE-field runs at run boundaries and paragraph-property setter calls; tables (1-4 x 1-3, one horizontal or vertical merge, header row, row height, shaded cells, nested tables) with cell paragraphs of the same kind, in half of the tables one row in the documented row-loop shape ({{#each list}} in its first cell, {{/each}} in its last, sometimes a word before/after the marker; cells of 1-2 paragraphs holding item fields, each cut into up to 5 runs of different formats - cuts inside the markers and the fields - with page-break, picture and field runs and paragraph-property setters); paragraphs and cell paragraphs holding {{#image x}} (alone, or with non-blank text around / two placeholders); the white space between '#each' / '#image' / '#if' and the name is the one documented blank in about half of the draws, otherwise 1-3 blanks/tabs; literal tokens and whole table rows that only look like placeholders/markers ('{{ name }}', '{{#each rows }}', '{{ /each}}', '{{#Each rows}}', '{{#Image logo}}' ...); one-format paragraphs holding one conditional block {{#if c}}words[{{else}}words]{{/if}} with conditions set true/false/unset; 0-3 headers/footers of distinct kinds with placeholders; section settings, document properties, a custom style, list items. Sizes past ten with a small probability each: 10-17 body blocks, a paragraph of 12-24 tokens cut into 11-15 runs, a table of 10-12 columns or 10-13 rows, lists of 9-13 (rarely 62-70) items, up to all six header/footer kinds, and a base document that already shows 8-14 inline pictures (one to three picture paragraphs, mostly of one format and followed by an image placeholder). Data: a drawn subset of the variable names (strings incl. XML metacharacters, braces, blanks, empty, and characters that other substitution mechanisms interpret: '$1' '${x}' 'US$100' '\\1' '%s' '%'; ints, int64, float64 with exact short decimals, bools, zero and negative numbers; control characters only for names used in headers/footers), lists of 0-3 (sometimes 9-13) maps with a drawn subset of the fields, in a third of the cases with integer-looking fields passed as int, image data for a drawn subset of the image names. Rendered through LoadTemplateFromDocument+RenderTemplateToDocument, or saved and rendered through TemplateRenderer.LoadTemplateFromFile+RenderTemplate (optionally after adding Word-style package relationships to the file; in two of three file cases the file is first rewritten, without the library, into another legal spelling of the same package: header/footer or all relationship targets of the main part and/or the package relationships as absolute part names, media parts numbered from 1). History: in about a fifth of the cases the same template was rendered before with other data (every name supplied, other pictures), in some of those a second template of the same engine was loaded and rendered in between, or the earlier rendering was given undecodable picture data (its outcome is ignored); the judged rendering is the last one. non-trivial = some placeholder is cut across runs of different formats (in the case and as seen in the saved base) and the document has both a supplied and an unsupplied placeholder and a table or a header/footer; distinct = distinct (block skeleton: run counts, non-text run kinds, setter kinds, table shapes/loop row/merges; header/footer kinds; per-name value class vector; list lengths; entry point, file spelling, history)",
 		Gen:  genCase, Run: run, Findings: findings, Fixed: fixedCases,
 		Assumptions: []string{
 			"placeholder syntax as documented: {{name}} with name = [A-Za-z0-9_]+, {{#each list}} ... {{/each}} around the cells of one table row, {{#image name}}; placeholders are found by scanning the concatenated text of a paragraph from left to right (own scanner)",
@@ -543,6 +695,9 @@ func TestC18(t *testing.T) {
 			"a header/footer value that XML 1.0 cannot carry is only required to leave the part well-formed",
 			"XML parts are compared as canonical trees (attribute order, empty-element form and indentation ignored); an empty w:rPr / w:pPr equals an absent one; xml:space on w:t is not compared",
 			"for the file entry points the base document is what the library holds after opening the file (tpl.BaseDoc re-saved), so losses of the reader are not attributed to rendering",
+			"a relationship target may be written relative to its source part or as an absolute part name (OPC part 2, 9.3: both denote the same part), and the pictures of a package may carry any numbers: a template file rewritten that way is the same template",
+			"a number or bool passed as a value renders as its plain decimal text / true|false (values are chosen so that the shortest and the %v rendering agree); an item field given as int renders like its decimal text",
+			"renderings are independent: what an engine rendered earlier (the same template with other data, another template) has no influence on the judged rendering",
 		},
 		MustSee: map[string]float64{"ph:split-across-formats": 0.5, "ph:split-across-runs": 0.6, "ph:supplied": 0.7, "ph:unsupplied": 0.5, "doc:table": 0.25, "doc:row-loop": 0.15,
 			"loop:2+items": 0.08, "loop:0-items": 0.02, "doc:nested-table": 0.1, "doc:merged-table": 0.05, "doc:header-footer": 0.4, "doc:section-settings": 0.2, "doc:properties": 0.15,
@@ -550,6 +705,10 @@ func TestC18(t *testing.T) {
 			"nontext:br": 0.3, "nontext:pic": 0.1, "nontext:fld": 0.1, "value:xml-meta": 0.2, "value:control": 0.1, "value:braces": 0.2, "value:empty": 0.1, "value:int": 0.2,
 			"entry:0": 0.5, "entry:1": 0.1, "entry:2": 0.03, "ph:split-in-loop-row": 0.08, "pset:keepnext": 0.05, "pset:align": 0.2,
 			"spelling:loop-marker-undocumented-blanks+items": 0.05, "spelling:image-undocumented-blanks": 0.1, "spelling:look-alike-literal": 0.15, "doc:conditional-block": 0.1,
+			"value:dollar-in-header-footer": 0.05, "value:subst-meta": 0.3, "value:typed-f": 0.04, "value:typed-b": 0.03, "value:typed-i64": 0.03, "list:typed-item-fields": 0.2, "list:9+items": 0.01,
+			"doc:11+pictures": 0.02, "doc:11+pictures+image-placeholder+file": 0.01, "doc:10+blocks": 0.005, "doc:table-10+rows-or-cols": 0.005, "para:11+runs": 0.01, "doc:4+headers-footers": 0.05,
+			"file:foreign-spelling": 0.1, "file:absolute-header-footer-targets+hf": 0.05, "file:absolute-main-part-targets": 0.03, "file:absolute-package-targets": 0.02, "file:media-numbered-from-1": 0.03, "file:other-relationship-ids": 0.03,
+			"prior:1": 0.05, "prior:2": 0.02, "prior:3": 0.02,
 			"looprow:2+formats-in-a-paragraph": 0.1, "looprow:3+runs-in-a-paragraph": 0.1, "looprow:marker-split-across-runs": 0.1, "looprow:nontext-br": 0.04, "looprow:nontext-pic": 0.015, "looprow:nontext-fld": 0.015},
 	})
 }
